@@ -90,6 +90,54 @@ OPS_SPECS = r"""
 impl Copy for BaseElement {}
 impl Clone for BaseElement { fn clone(&self) -> Self { *self } }
 pub open spec fn wf(e: BaseElement) -> bool { (e.0 as int) < 2 * P() }
+// the field element an internal value stands for: inner * 2^-64 mod p (Montgomery form)
+pub open spec fn vali(x: int) -> int { (x * INV()) % P() }
+pub open spec fn val(e: BaseElement) -> int { vali(e.0 as int) }
+
+pub proof fn lemma_vali_congruent(x: int, y: int)
+    requires x % P() == y % P(),
+    ensures vali(x) == vali(y),
+{
+    vstd::arithmetic::div_mod::lemma_mul_mod_noop_left(x, INV(), P());
+    vstd::arithmetic::div_mod::lemma_mul_mod_noop_left(y, INV(), P());
+}
+pub proof fn lemma_val_add_forall(a: int, b: int)
+    ensures forall|r: int| #![trigger vali(r)] r % P() == (a + b) % P() ==> vali(r) == (vali(a) + vali(b)) % P(),
+{
+    assert forall|r: int| #![trigger vali(r)] r % P() == (a + b) % P() implies vali(r) == (vali(a) + vali(b)) % P() by {
+        lemma_vali_congruent(r, a + b);
+        assert((a + b) * INV() == a * INV() + b * INV()) by (nonlinear_arith);
+        vstd::arithmetic::div_mod::lemma_add_mod_noop(a * INV(), b * INV(), P());
+    }
+}
+pub proof fn lemma_val_sub_forall(a: int, b: int)
+    ensures forall|r: int| #![trigger vali(r)] r % P() == (a - b) % P() ==> vali(r) == (vali(a) - vali(b)) % P(),
+{
+    assert forall|r: int| #![trigger vali(r)] r % P() == (a - b) % P() implies vali(r) == (vali(a) - vali(b)) % P() by {
+        lemma_vali_congruent(r, a - b);
+        assert((a - b) * INV() == a * INV() - b * INV()) by (nonlinear_arith);
+        vstd::arithmetic::div_mod::lemma_sub_mod_noop(a * INV(), b * INV(), P());
+    }
+}
+pub proof fn lemma_val_mul_forall(a: int, b: int)
+    ensures forall|r: int| #![trigger vali(r)] (r * R()) % P() == (a * b) % P() ==> vali(r) == (vali(a) * vali(b)) % P(),
+{
+    assert forall|r: int| #![trigger vali(r)] (r * R()) % P() == (a * b) % P() implies vali(r) == (vali(a) * vali(b)) % P() by {
+        let x = a * b;
+        let y = r * R();
+        // x * INV * INV == y * INV * INV (mod P)
+        vstd::arithmetic::div_mod::lemma_mul_mod_noop_left(x, INV() * INV(), P());
+        vstd::arithmetic::div_mod::lemma_mul_mod_noop_left(y, INV() * INV(), P());
+        // y * INV * INV == (r * INV) * (R * INV) == r * INV (mod P)
+        assert(y * (INV() * INV()) == (r * INV()) * (R() * INV())) by (nonlinear_arith) requires y == r * R();
+        assert((R() * INV()) % P() == 1) by (compute);
+        vstd::arithmetic::div_mod::lemma_mul_mod_noop_right(r * INV(), R() * INV(), P());
+        assert(((r * INV()) * 1) % P() == vali(r));
+        // vali(a) * vali(b) == (a * INV) * (b * INV) == x * INV * INV (mod P)
+        vstd::arithmetic::div_mod::lemma_mul_mod_noop(a * INV(), b * INV(), P());
+        assert((a * INV()) * (b * INV()) == x * (INV() * INV())) by (nonlinear_arith) requires x == a * b;
+    }
+}
 
 impl vstd::std_specs::ops::AddSpecImpl<BaseElement> for BaseElement {
     open spec fn obeys_add_spec() -> bool { false }
@@ -112,6 +160,17 @@ pub trait StarkField: Sized {
     spec fn wf_t(&self) -> bool;
     fn as_int(&self) -> (r: Self::PositiveInteger)
         requires self.wf_t();
+}
+// reduced declaration of math/src/field/traits.rs `ExtensibleField<N>` (the methods under contract)
+pub trait ExtensibleField<const N: usize>: Sized {
+    spec fn wf_x(a: [Self; N]) -> bool;
+    spec fn wf_b(b: Self) -> bool;
+    fn mul(a: [Self; N], b: [Self; N]) -> (r: [Self; N])
+        requires Self::wf_x(a), Self::wf_x(b);
+    fn mul_base(a: [Self; N], b: Self) -> (r: [Self; N])
+        requires Self::wf_x(a), Self::wf_b(b);
+    fn frobenius(x: [Self; N]) -> (r: [Self; N])
+        requires Self::wf_x(x);
 }
 impl vstd::std_specs::ops::NegSpecImpl for BaseElement {
     open spec fn obeys_neg_spec() -> bool { false }
@@ -151,6 +210,19 @@ GH_MUL_3 = r'''
         lemma_mont_step(z0 as int, q as int, (z as int) / R());
     }
 '''
+
+EXT2_EXTRA = r"""
+    open spec fn wf_x(a: [BaseElement; 2]) -> bool { wf(a[0]) && wf(a[1]) }
+    open spec fn wf_b(b: BaseElement) -> bool { wf(b) }
+"""
+EXT2_MUL_PROOF = r"""
+        proof {
+            let (a0, a1, b0, b1) = (val(a[0]), val(a[1]), val(b[0]), val(b[1]));
+            vstd::arithmetic::div_mod::lemma_add_mod_noop(a0 * b0, a1 * b1, P());
+            vstd::arithmetic::div_mod::lemma_mul_mod_noop(a0 + a1, b0 + b1, P());
+            vstd::arithmetic::div_mod::lemma_sub_mod_noop((a0 + a1) * (b0 + b1), a0 * b0, P());
+            assert((a0 + a1) * (b0 + b1) - a0 * b0 == a0 * b1 + a1 * b0 + a1 * b1) by (nonlinear_arith);
+        }"""
 
 EPILOGUE = r'''
 proof fn thm_constants()
@@ -278,20 +350,38 @@ UNIT = {
         {"kind": "impl", "file": F, "header": "impl Add for BaseElement", "out_header": "impl core::ops::Add for BaseElement",
          "extra": "type Output = Self;\n", "methods": [
             {"name": "add", "ret": "r", "fnlabel": "f62 <BaseElement as Add>::add", "ob": "C10.f62.op_add.contract",
-             "spec": "ensures wf(r), (r.0 as int) % P() == (self.0 as int + rhs.0 as int) % P(),"}]},
+             "spec": "ensures wf(r), (r.0 as int) % P() == (self.0 as int + rhs.0 as int) % P(),\n    val(r) == (val(self) + val(rhs)) % P(),",
+             "ghost": [{"at": "start", "text": "proof { lemma_val_add_forall(self.0 as int, rhs.0 as int); }"}]}]},
         {"kind": "impl", "file": F, "header": "impl Sub for BaseElement", "out_header": "impl core::ops::Sub for BaseElement",
          "extra": "type Output = Self;\n", "methods": [
             {"name": "sub", "ret": "r", "fnlabel": "f62 <BaseElement as Sub>::sub", "ob": "C10.f62.op_sub.contract",
-             "spec": "ensures wf(r), (r.0 as int) % P() == (self.0 as int - rhs.0 as int) % P(),"}]},
+             "spec": "ensures wf(r), (r.0 as int) % P() == (self.0 as int - rhs.0 as int) % P(),\n    val(r) == (val(self) - val(rhs)) % P(),",
+             "ghost": [{"at": "start", "text": "proof { lemma_val_sub_forall(self.0 as int, rhs.0 as int); }"}]}]},
         {"kind": "impl", "file": F, "header": "impl Mul for BaseElement", "out_header": "impl core::ops::Mul for BaseElement",
          "extra": "type Output = Self;\n", "methods": [
             {"name": "mul", "ret": "r", "fnlabel": "f62 <BaseElement as Mul>::mul", "ob": "C10.f62.op_mul.contract",
-             "spec": "ensures wf(r), (r.0 as int * R()) % P() == (self.0 as int * rhs.0 as int) % P(),",
-             "ghost": [{"at": "start", "text": "proof { lemma_prod_bound(self.0 as int, rhs.0 as int); }"}]}]},
+             "spec": "ensures wf(r), (r.0 as int * R()) % P() == (self.0 as int * rhs.0 as int) % P(),\n    val(r) == (val(self) * val(rhs)) % P(),",
+             "ghost": [{"at": "start", "text": "proof { lemma_prod_bound(self.0 as int, rhs.0 as int); lemma_val_mul_forall(self.0 as int, rhs.0 as int); }"}]}]},
         {"kind": "impl", "file": F, "header": "impl Neg for BaseElement", "out_header": "impl core::ops::Neg for BaseElement",
          "extra": "type Output = Self;\n", "methods": [
             {"name": "neg", "ret": "r", "fnlabel": "f62 <BaseElement as Neg>::neg", "ob": "C10.f62.op_neg.contract",
-             "spec": "ensures wf(r), (r.0 as int) % P() == (0 - self.0 as int) % P(),"}]},
+             "spec": "ensures wf(r), (r.0 as int) % P() == (0 - self.0 as int) % P(),\n    val(r) == (0 - val(self)) % P(),",
+             "ghost": [{"at": "start", "text": "proof { lemma_val_sub_forall(0, self.0 as int); assert(vali(0) == 0) by (compute); }"}]}]},
+        # --- quadratic extension x^2 - x - 1 over the base-operation contracts ------------------------
+        {"kind": "impl", "file": F, "header": "impl ExtensibleField<2> for BaseElement", "extra": EXT2_EXTRA, "methods": [
+            {"name": "mul", "ret": "r", "fnlabel": "f62 <BaseElement as ExtensibleField<2>>::mul", "ob": "C10.f62.ext2.mul.contract",
+             "spec": "ensures wf(r[0]), wf(r[1]),\n"
+                     "    // (a0 + a1 phi)(b0 + b1 phi) with phi^2 = phi + 1\n"
+                     "    val(r[0]) == (val(a[0]) * val(b[0]) + val(a[1]) * val(b[1])) % P(),\n"
+                     "    val(r[1]) == (val(a[0]) * val(b[1]) + val(a[1]) * val(b[0]) + val(a[1]) * val(b[1])) % P(),",
+             "ghost": [{"at": "start", "text": EXT2_MUL_PROOF}]},
+            {"name": "mul_base", "ret": "r", "fnlabel": "f62 <BaseElement as ExtensibleField<2>>::mul_base", "ob": "C10.f62.ext2.mul_base.contract",
+             "spec": "ensures wf(r[0]), wf(r[1]), val(r[0]) == (val(a[0]) * val(b)) % P(), val(r[1]) == (val(a[1]) * val(b)) % P(),"},
+            {"name": "frobenius", "ret": "r", "fnlabel": "f62 <BaseElement as ExtensibleField<2>>::frobenius", "ob": "C10.f62.ext2.frobenius.contract",
+             "spec": "ensures wf(r[0]), wf(r[1]),\n"
+                     "    // conjugation phi -> 1 - phi of x^2 - x - 1\n"
+                     "    val(r[0]) == (val(x[0]) + val(x[1])) % P(), val(r[1]) == (0 - val(x[1])) % P(),"},
+        ]},
     ],
     "epilogue": EPILOGUE,
     "theorems": {"thm_constants": "C11.f62.constants.M_R2_R3_U", "thm_roundtrip": "C11.f62.as_int_new.identity"},
